@@ -202,13 +202,52 @@ def r3_truth_tables(rep, facts):
                  'dotted == path-non-empty, [t] reuses only header-implicit tables, attachment swaps only over implicit placeholders, '
                  'array of tables resolved to its last element, new tables flagged by walk kind', floor=10)
     ev = Evaluator(facts)
+
+    def walk_kinds(d):
+        """(name of the parameter that says which kind of walk this is, {'dotted' / 'header': the value callers pass for it}): a key/value line walks
+        with the dotted kind, the header functions with the other; the parameter may be a bool or a private two-variant enum"""
+        b = facts.body(d)
+        ps = [p_ for p_ in b.get('params', []) if p_.get('k') == 'p_bind']
+        if len(ps) < 3:
+            return None, {}
+        pname = ps[2]['name']
+        out = {}
+        it = Interp(ev)
+        for cd, cb in facts.bodies.items():
+            if not cd.startswith(P):
+                continue
+            for x in walk(cb['body']):
+                if x.get('k') == 'call' and any(strip_generics(c) == d for c in callee_all(x)) and len(x.get('args', [])) >= 3:
+                    try:
+                        v = it.run(x['args'][2], {})
+                    except Unanalysable:
+                        continue
+                    label = 'dotted' if last_seg(cd) in ('on_keyval', 'table_from_pairs', 'inline_table_from_pairs') else 'header'
+                    out.setdefault(label, v)
+        return pname, out
     # descend_path (both): error <=> dotted walk && !implicit
     for d in (ST + 'descend_path', P + 'inline_table::descend_path'):
         b = facts.body(d)
         ifs = [n for n in walk(b['body']) if n.get('k') == 'if' and arm_returns_err(n['then'])]
         ok = False
         detail = f'{len(ifs)} rejecting ifs'
+        pname, kinds = walk_kinds(d)
         for n in ifs:
+            if pname and set(kinds) == {'dotted', 'header'} and any(x.get('k') == 'path' and x.get('path') == pname for x in walk(n['cond'])):
+                # the guard reads the walk-kind parameter (a bool, or an enum through an accessor): tabulated with the values the callers pass
+                try:
+                    cells = {}
+                    for label, v in kinds.items():
+                        names, table = truth_table(ev, n['cond'], lambda x: atoms_flags(x) if atoms_flags(x) == 'implicit' else None, base_env={pname: v})
+                        if names != ['implicit']:
+                            raise Unanalysable(f'guard reads {names}')
+                        for (imp,), res in table.items():
+                            cells[(label == 'dotted', imp)] = res
+                    detail = f'(dotted walk, implicit) -> error: {cells}'
+                    ok = all(res == (dw and not imp) for (dw, imp), res in cells.items())
+                except Unanalysable as e:
+                    detail = str(e)
+                continue
             try:
                 names, table = truth_table(ev, n['cond'], atoms_flags)
             except Unanalysable as e:
@@ -325,10 +364,18 @@ def r3_truth_tables(rep, facts):
     for d, want in ((ST + 'descend_path', {'set_implicit': True, 'set_dotted': 'dotted'}), (P + 'inline_table::descend_path', {'set_implicit': 'dotted', 'set_dotted': 'dotted'})):
         b = facts.body(d)
         got = {}
+        pname, kinds = walk_kinds(d)
         for n in walk(b['body']):
             if n.get('k') == 'mcall' and n.get('name') in want:
                 a = peel(n['args'][0])
                 got[n['name']] = a.get('v') if a.get('k') == 'lit' else (a.get('path') or '').split('#')[0]
+                if pname and set(kinds) == {'dotted', 'header'} and a.get('k') != 'lit' and any(x.get('k') == 'path' and x.get('path') == pname for x in walk(n['args'][0])):
+                    # the flag is computed from the walk-kind parameter: evaluated with the values the callers pass
+                    try:
+                        vals = {label: Interp(ev).run(n['args'][0], {pname: v}) for label, v in kinds.items()}
+                        got[n['name']] = 'dotted' if vals == {'dotted': True, 'header': False} else f'{vals}'
+                    except Unanalysable as e:
+                        got[n['name']] = f'? ({e})'
         rep.check(R, d.replace(P, '') + '|new-table-flags', got == want, f'{got}', f'tables created by `{d.replace(P, "")}` are flagged {got}, expected {want}', facts.loc(b))
     # header starters mark the table explicit
     for d in (ST + 'start_table', ST + 'start_array_table'):
